@@ -323,6 +323,11 @@ def run(ctx):
         one(ca.int_weights_case(rng))
     for i in range(400 if thorough else 40):
         one(ca.int_weights_case(rng, kind=ca.KINDS[i % 4] if i % 2 else "count", scalar=True))
+    for i in range(3000 if thorough else 260):
+        rc_ = ca.relations_case(rng)
+        if i % 4:
+            rc_["rel"]["scenario"] = "shift-in-place"
+        ca.run_relations(S, rc_, pick_fmt(rng, rc_))
     n_scale = 900 if thorough else 70
     for i in range(n_scale):
         one(ca.scale_case(rng, decimal=(i % 3 == 2)))
